@@ -10,7 +10,7 @@ from ..builtin import BUILTINS, check_functions, compare_with_spec
 from ..cfg import cfg_of
 from ..index import AnalysisError, function_stmts, parent, walk_no_nested
 from ..pipeline import check_pipelines, no_dropped_result, parser_pipelines
-from ..roles import self_method
+from ..roles import schema_backend_classes, self_method
 from ..util import (bool_atoms, callee_last, calls_in, canon_atom, enclosing_stmt, kw, names_in, path_condition,
                     show_condition, txt)
 
@@ -30,7 +30,7 @@ EXPLANATION = (
     "itself - pandas semantics on data (NaN in duplicated, dtype equality, regex expansion on real labels)."
 )
 LEVEL_RULE = "one obligation per pipeline / (attribute, function) / (check, option row) / write site"
-FLOORS = {"R1": 12, "R2": 25, "R3": 20, "R4": 5, "R5": 2, "R6": 10, "R7": 6, "R8": 12, "R9": 3}
+FLOORS = {"R1": 12, "R2": 25, "R3": 20, "R4": 5, "R5": 2, "R6": 10, "R7": 6, "R8": 12, "R9": 3, "R10": 1, "R11": 3}
 
 PD = "pandera/backends/pandas/builtin_checks.py"
 CONT = "pandera/backends/pandas/container.py::DataFrameSchemaBackend"
@@ -502,7 +502,86 @@ def r9_column_info(ctx):
                "columns is decided differently, so required / regex / strict verdicts change for some frames")
 
 
+def r10_monotone_verdict(ctx):
+    """A core check that loops over several constraint units (the column sets of a joint uniqueness declaration) fails as
+    soon as one unit fails: once the verdict variable is False no later iteration may overwrite it.  After a falsifying
+    assignment the loop must be left (break / return), or the next iteration must be unreachable while it is False."""
+    from ..cfg import cfg_of
+    ix = ctx.ix
+    n = 0
+    for bc in schema_backend_classes(ix, which=("pandas",)):
+        for lst in bc.methods.values():
+            for f in lst:
+                verdict = {kw(c, "passed").id for c in calls_in(f.node) if callee_last(c) == "CoreCheckResult" and isinstance(kw(c, "passed"), ast.Name)}
+                if not verdict:
+                    continue
+                cfg = None
+                for loop in [x for x in function_stmts(f) if isinstance(x, (ast.For, ast.While))]:
+                    assigns = [a for a in ast.walk(loop) if isinstance(a, ast.Assign) and len(a.targets) == 1 and isinstance(a.targets[0], ast.Name)
+                               and a.targets[0].id in verdict]
+                    if not assigns:
+                        continue
+                    cfg = cfg or cfg_of(f.node)
+                    head = cfg.node_of(loop)
+                    for a in assigns:
+                        n += 1
+                        var = a.targets[0].id
+                        node = cfg.node_of(a)
+                        back_sources = [m for m in cfg.reachable(node.id, skip_labels=("exc", "fin-exc"))
+                                        if any(b == head.id and lab == "back" for b, lab in cfg.succ[m])]
+                        bad = []
+                        for m in back_sources:
+                            if isinstance(a.value, ast.Constant) and a.value.value is False:
+                                bad.append(m)   # the loop goes on after the verdict was set to False
+                                continue
+                            pc = path_condition(cfg, m, keep=lambda t, nn, var=var: t == var)
+                            # the next iteration may start only while the verdict is still True
+                            if not (pc[0] == (var,) and pc[1] == frozenset({(True,)})):
+                                bad.append(m)
+                        ctx.ob("R10", f, f"{f.short}: `{txt(a)[:50]}` inside the loop cannot be overwritten after a failure", not bad,
+                               "a failing unit leaves the loop (or the next iteration is reached only while the verdict is True)" if not bad else
+                               f"after `{txt(a)[:40]}` the loop can start another iteration although the verdict may be False (line "
+                               f"{cfg.nodes[bad[0]].lineno}): a later constraint unit that passes resets the verdict, so data violating an earlier "
+                               "unit is accepted", f.loc(a))
+    if n == 0:
+        raise AnalysisError("no loop-carried verdict found in the pandas core checks")
+
+
+def r11_verdict_from_output(ctx):
+    """The verdict of a check (CheckResult.check_passed) is an aggregate of the boolean check output; the failure cases
+    are a *report* derived from the same output (after dropping nulls / truncation), never the source of the verdict."""
+    from ..util import Expander
+    from .c19 import PCB
+    cls = ctx.ix.cls(PCB)
+    n = 0
+    for f in [x for lst in cls.methods.values() for x in lst]:
+        ex = None
+        for c in calls_in(f.node):
+            if callee_last(c) != "CheckResult":
+                continue
+            out = c.args[0] if c.args else kw(c, "check_output")
+            passed = c.args[1] if len(c.args) > 1 else kw(c, "check_passed")
+            if out is None or passed is None:
+                continue
+            ex = ex or Expander(f.node)
+            n += 1
+            pc = ex.closure(passed)
+            from_cases = [d for d in pc if any(isinstance(x, ast.Name) and "failure_case" in x.id for x in ast.walk(d))
+                          or any(isinstance(x, ast.Attribute) and "failure_case" in x.attr for x in ast.walk(d))]
+            out_names = {x.id for d in ex.closure(out) for x in ast.walk(d) if isinstance(x, ast.Name)} - {"self"}
+            shares = any(isinstance(x, ast.Name) and x.id in out_names for d in pc for x in ast.walk(d))
+            ok = shares and not from_cases
+            ctx.ob("R11", f, f"{f.name}: check_passed is an aggregate of the check output", ok,
+                   f"`{txt(passed)[:60]}` derives from the output" if ok else
+                   f"check_passed = `{txt(ex.expand(passed))[:80]}` is computed from the failure cases (or not from the check output): failure cases "
+                   "drop nulls and may be truncated, so a failing null cell (ignore_na=False) or a truncated report flips the verdict", f.loc(c))
+    if n == 0:
+        raise AnalysisError("no CheckResult construction found in the pandas check backend")
+
+
 def run(ctx):
+    r11_verdict_from_output(ctx)
+    r10_monotone_verdict(ctx)
     r9_column_info(ctx)
     r7_dtype_equality(ctx)
     r8_verdict_observers(ctx)
